@@ -69,7 +69,11 @@ func cmdContinue(p *lang.Process) error {
 	scope := p.Scope.Id
 	proc := p.Parent
 	for {
-		if proc.Name.String() == name {
+		// The target is the fork running the named block. A process that
+		// merely follows in one of the cancelled blocks and shares that name
+		// (eg another `foreach` later in the same block) is not the target
+		// and gets cancelled like any other process.
+		if proc.IsFork && proc.Name.String() == name {
 			return nil
 		}
 		if proc.Id == scope {
